@@ -40,3 +40,7 @@ CHECKS['C17'] = ('exploration',
     'bounded exhaustive enumeration: every builtin name x 6 argument tuples x 17 syntactic routes through is_eval_safe/safe_eval and through constants and alerts in real parses, executed under an interpreter audit hook with impure builtins replaced by recording stubs (a leak is observed, never executed); a depth-2 BFS of the non-dunder attribute graph from every context value; every history of length 2-3 over a pool of constant grammars in pristine forked children (names of one parse invisible to the next)',
     'trusted: the explicit list of impure builtins and forbidden audit events; routes are a finite menu of syntactic forms',
     'exhaustive enumeration of a finite expression family under fault-observing instrumentation + exhaustive short histories')
+CHECKS['C09'] = ('model_checking',
+    '(a) exhaustive layout enumeration: 7 grammars with comment directives x every lexeme sequence up to length 3 x every assignment of 6 (quick) / 11 (thorough) whitespace-and-comment runs to every gap, against the reference evaluator and (token-only grammars) AST invariance; (b) full product tokens x case variants x following characters x nameguard x namechars x ignorecase x {directive, setting} against the reference token matcher; (c) the complete 27-point layering lattice {absent,v1,v2}^3 (compile, directive, parse time) for 7 settings, differential against the value given alone at parse time',
+    'trusted: the reference evaluator\'s skip() and token matcher; digit-initial tokens are not treated as names',
+    'exhaustive enumeration of inputs x configurations against a reference model + complete configuration lattice')
